@@ -116,6 +116,7 @@ structure Inv (K : Rule → Inst → Prop) (r : Rule) (ds : Inst) (out : List In
   le_until : ∀ x ∈ out ++ rem s, ltP r.untl x = false
   seed : ∀ p, s.from_ = some p → WfInst p ∧ ltP p ds = false ∧ ∀ x ∈ out ++ rem s, ltP x p = true
   kind : ∀ p, s.from_ = some p → K s.rule p
+  wf : ∀ x ∈ out ++ rem s, WfInst x
 
 theorem inv_mk {K : Rule → Inst → Prop} (r : Rule) (ds : Inst) (hd : WfInst ds) (hk : K (fixDflts r ds) ds) :
     Inv K r ds [] (mkStrm r ds) where
@@ -135,6 +136,7 @@ theorem inv_mk {K : Rule → Inst → Prop} (r : Rule) (ds : Inst) (hd : WfInst 
     simp [mkStrm] at hp
     subst hp
     exact hk
+  wf := by simp [mkStrm, rem]
 
 theorem inv_wfRule {K r ds out s} (hr : WfRule r) (hI : Inv K r ds out s) : WfRule s.rule := by
   obtain ⟨c, hc⟩ := hI.rule
@@ -178,7 +180,7 @@ theorem inv_fill {K r ds out s} (hcK : Contract K) (hI : Inv K r ds out s) (hrem
   obtain ⟨c, hc⟩ := hI.rule
   have huntl : s.rule.untl = r.untl := by rw [hc]; exact fixDflts_untl r ds
   have hcnt' : s'.rule.count = cntNext s.rule.count cch.length := by rw [h1]
-  refine ⟨⟨cntNext s.rule.count cch.length, by rw [h1, hc]⟩, ?_, ?_, ?_, ?_, ?_, ?_, ?_⟩
+  refine ⟨⟨cntNext s.rule.count cch.length, by rw [h1, hc]⟩, ?_, ?_, ?_, ?_, ?_, ?_, ?_, ?_⟩
   · intro hn
     have := hI.cnt_neg hn
     rw [hcnt', cntNext, if_neg (by omega)]; exact this
@@ -227,13 +229,18 @@ theorem inv_fill {K r ds out s} (hcK : Contract K) (hI : Inv K r ds out s) (hrem
     have hpl : p ∈ l := by rw [hl]; simp
     rw [h1]
     exact hcK.count _ _ _ (hK p hpl)
+  · rw [hrem']
+    intro x hx
+    rcases List.mem_append.mp hx with hx | hx
+    · exact hI.wf x (List.mem_append_left _ hx)
+    · exact hF.wf x (hcl x hx)
 
 /-- a refill that did not call the filler (end of stream noted, or COUNT used up) -/
 theorem inv_idle {K r ds out s} (hI : Inv K r ds out s) (hrem : rem s = []) :
     Inv K r ds out { s with cch := [], rdi := 0 } := by
   have e : rem { s with cch := [], rdi := 0 } = rem s := by rw [hrem]; rfl
   exact ⟨hI.rule, hI.cnt_neg, by rw [e]; exact hI.cnt_pos, by rw [e]; exact hI.asc,
-    by rw [e]; exact hI.ge_start, by rw [e]; exact hI.le_until, by rw [e]; exact hI.seed, hI.kind⟩
+    by rw [e]; exact hI.ge_start, by rw [e]; exact hI.le_until, by rw [e]; exact hI.seed, hI.kind, by rw [e]; exact hI.wf⟩
 
 theorem refill_idle {s s'} (h : refill s = some s') (h0 : s.from_ = none ∨ s.rule.count = 0) :
     s' = { s with cch := [], rdi := 0 } := by
@@ -277,7 +284,7 @@ theorem inv_adv {K r ds out s} (hI : Inv K r ds out s) (x : Inst) (t : List Inst
   have e : (out ++ [x]) ++ rem s' = out ++ rem s := by rw [h3, hrem]; simp
   exact ⟨by rw [h1]; exact hI.rule, by rw [h1]; exact hI.cnt_neg, by rw [e, h1]; exact hI.cnt_pos,
     by rw [e]; exact hI.asc, by rw [e]; exact hI.ge_start, by rw [e]; exact hI.le_until,
-    by rw [e, h2]; exact hI.seed, by rw [h1, h2]; exact hI.kind⟩
+    by rw [e, h2]; exact hI.seed, by rw [h1, h2]; exact hI.kind, by rw [e]; exact hI.wf⟩
 
 theorem inv_pop {K} (hc : Contract K) {r ds out s} (hr : WfRule r) (hI : Inv K r ds out s) (x : Inst) (s' : Strm)
     (h : pop s = some (some x, s')) : Inv K r ds (out ++ [x]) s' := by
@@ -323,19 +330,19 @@ theorem pop_end {K r ds out s} (hI : Inv K r ds out s) (hcnt : 0 < r.count) (hle
 
 theorem pops_inv {K} (hc : Contract K) {r ds} (hr : WfRule r) (n : Nat) :
     ∀ (out : List Inst) (s : Strm) (l : List Inst) (e : Bool), Inv K r ds out s → pops n s = some (l, e) →
-      StreamOk r ds (out ++ l) := by
+      StreamOk r ds (out ++ l) ∧ ∀ x ∈ out ++ l, WfInst x := by
   induction n with
   | zero =>
     intro out s l e hI h
     simp [pops] at h
-    rw [h.1, List.append_nil]; exact inv_streamOk hI
+    rw [h.1, List.append_nil]; exact ⟨inv_streamOk hI, fun x hx => hI.wf x (List.mem_append_left _ hx)⟩
   | succ n ih =>
     intro out s l e hI h
     rw [pops] at h
     split at h
     · cases h
     · cases h
-      rw [List.append_nil]; exact inv_streamOk hI
+      rw [List.append_nil]; exact ⟨inv_streamOk hI, fun x hx => hI.wf x (List.mem_append_left _ hx)⟩
     next x s1 hp =>
     cases h1 : pops n s1 with
     | none => rw [h1] at h; cases h
@@ -351,7 +358,15 @@ theorem pops_inv {K} (hc : Contract K) {r ds} (hr : WfRule r) (n : Nat) :
 theorem pops_ok_of {K} (hc : Contract K) (r : Rule) (ds : Inst) (hr : WfRule r) (hd : WfInst ds)
     (hk : K (fixDflts r ds) ds)
     (n : Nat) (l : List Inst) (ended : Bool) (h : pops n (mkStrm r ds) = some (l, ended)) : StreamOk r ds l := by
-  have := pops_inv hc hr n [] (mkStrm r ds) l ended (inv_mk r ds hd hk) h
+  have := (pops_inv hc hr n [] (mkStrm r ds) l ended (inv_mk r ds hd hk) h).1
+  rw [List.nil_append] at this
+  exact this
+
+/-- every occurrence handed out is a sane instant -/
+theorem pops_wf_of {K} (hc : Contract K) (r : Rule) (ds : Inst) (hr : WfRule r) (hd : WfInst ds)
+    (hk : K (fixDflts r ds) ds)
+    (n : Nat) (l : List Inst) (ended : Bool) (h : pops n (mkStrm r ds) = some (l, ended)) : ∀ x ∈ l, WfInst x := by
+  have := (pops_inv hc hr n [] (mkStrm r ds) l ended (inv_mk r ds hd hk) h).2
   rw [List.nil_append] at this
   exact this
 
